@@ -71,7 +71,13 @@ impl FileSystemLayer {
                     let pattern = format!("{}{}", canonical, pattern);
                     Ok(glob::glob(&pattern)?
                         .filter_map(|r| r.ok())
-                        .map(|p| p.display().to_string().replace(&layer_str, ""))
+                        .map(|p| {
+                            let full = p.display().to_string();
+                            match full.strip_prefix(&layer_str) {
+                                Some(relative) => relative.to_string(),
+                                None => full,
+                            }
+                        })
                         .collect())
                 } else {
                     Ok(Default::default())
@@ -95,7 +101,13 @@ impl FileSystemLayer {
                     Ok(glob::glob(&pattern)?
                         .filter_map(|r| r.ok())
                         .filter(|p| p.is_dir())
-                        .map(|p| p.display().to_string().replace(&layer_str, ""))
+                        .map(|p| {
+                            let full = p.display().to_string();
+                            match full.strip_prefix(&layer_str) {
+                                Some(relative) => relative.to_string(),
+                                None => full,
+                            }
+                        })
                         .collect())
                 } else {
                     Ok(Default::default())
